@@ -21,6 +21,11 @@ family adds one parameter point with 600 trials (repeating pattern: per logical 
 Pauli type, 60 of each other, every fifth trial outside the codespace) split into 2 or 3 files of
 unequal length in 6 container combinations x {explicit paths, directory}.
 
+A merge-history family runs sequences of real `merge-results` commands on 3 (thorough also 4) part
+files - ordered input selections, output = a fresh path or any one of the inputs (incremental
+merging), merged files merged again - and analyses the output after every command: it must report
+the pooled counts of exactly the parts that went in.
+
 Oracle (plain Python on the pooled trial list, no panqec code): one row per error rate; n_trials,
 n_fail, p_est = n_fail/n, p_se = sqrt(p(1-p)/(n+1)); n_trials_X/Z = k * #codespace, n_fail_X/Z =
 flagged X/Z bits among codespace trials; p_word = 1-(1-p)^(1/k) and (1/k)(1-p)^(1/k-1) p_se;
@@ -66,7 +71,11 @@ RULE = ('one sub-case = (k, trial set, set partition of the 5 trials of point A 
         'ones (k=2: 8 sets = all 32 trial types, k=3: 3 sets). Every layout also carries points B (other error '
         'rate) and C (same rate as A, noise direction 1e-8 away). Both tiers add the large-count family: per k, '
         '600 trials of one point in files of lengths [150,450] and [100,257,243] x 6 kind combinations x '
-        '{explicit paths, directory}. A sub-case is counted non-trivial when the layout '
+        '{explicit paths, directory}. Merge-history family (both tiers): the trial multiset in 3 part '
+        'files (thorough, k=1: also 4); every sequence of merge-results commands, each = an ordered selection of '
+        '>= 2 present files x output in {fresh path, each of its inputs}, consumed inputs removed, until one file '
+        'is left; the output is analysed after every command (quick adds, for k=1, 4 parts merged pairwise and '
+        'then together). A sub-case is counted non-trivial when the layout '
         'holds more result records than parameter points (a point is repeated over files, so pooling has to '
         'happen) or uses a container other than plain json; counted as distinct (kinds, order) layouts per work '
         'item (work items are disjoint).')
@@ -81,10 +90,12 @@ BOUNDS = {
     'quick': {'trials_point_A': 5, 'trials_point_B': 3, 'partitions': 52, 'error_rates': [0.1, 0.2],
               'trials_point_C': 2, 'noise_offset_point_C': 1e-8, 'large_family_trials': 600,
               'large_family_file_lengths': [[150, 450], [100, 257, 243]],
+              'merge_parts': {'1': [3], '2': [3], '3': [3]},
               'trial_sets': {'1': 2, '2': 1, '3': 1}, 'mode': {'1': 'qq', '2': 'r', '3': 'r'}},
     'thorough': {'trials_point_A': 5, 'trials_point_B': 3, 'partitions': 52, 'error_rates': [0.1, 0.2],
                  'trials_point_C': 2, 'noise_offset_point_C': 1e-8, 'large_family_trials': 600,
                  'large_family_file_lengths': [[150, 450], [100, 257, 243]],
+                 'merge_parts': {'1': [3, 4], '2': [3], '3': [3]},
                  'trial_sets': {'1': 2, '2': 8, '3': 3}, 'mode': {'1': 'tt', '2': 'ttq', '3': 'ttq'}},
 }
 BUDGET_S = {'quick': 600, 'thorough': 7200}
@@ -250,6 +261,15 @@ def cases(tier, seed):
     for k in (1, 2, 3):
         for split in LARGE_SPLITS:
             out.append({'family': 'large', 'k': k, 'split': split})
+    # merge histories: one work item per (k, ordered input selection of the first merge command)
+    for k in (1, 2, 3):
+        for n_parts in b['merge_parts'][str(k)]:
+            for r in range(2, n_parts + 1):
+                for first in itertools.permutations(range(n_parts), r):
+                    out.append({'family': 'merge', 'k': k, 'n_parts': n_parts, 'first': list(first)})
+        if 4 not in b['merge_parts'][str(k)] and k == 1:
+            # two separately merged files merged again (all outputs at each of the three steps)
+            out.append({'family': 'merge', 'k': k, 'n_parts': 4, 'first': [0, 1], 'second': [3, 2]})
     return out
 
 
@@ -486,7 +506,156 @@ def _digest(table):
     return hashlib.sha1(json.dumps(table, sort_keys=True).encode()).hexdigest()[:10]
 
 
+MERGE_PARTITION = {3: [[0, 1], [2], [3, 4]], 4: [[0], [1, 2], [3], [4]]}
+
+
+def _merge_ops(state):
+    """All merge commands on the present files: an ordered selection of >= 2 files x output in {a fresh path,
+    each of the inputs}.  state: {file name: frozenset of part ids it holds} (contents are pairwise disjoint, so
+    every trial goes in once)."""
+    names = sorted(state)
+    for r in range(2, len(names) + 1):
+        for inputs in itertools.permutations(names, r):
+            for out in (None,) + inputs:
+                yield list(inputs), out
+
+
+def _eval_merge(case):
+    """Merge histories through the real merge-results command.
+
+    The trial multiset (trial set 0 of k: points A, B, C) is written to n_parts part files; a history is a sequence
+    of merge commands, each taking an ordered selection of the present files and writing either a fresh path or
+    one of its own inputs (incremental merging: merged = merge(merged, next), at every input position); inputs
+    other than the output are consumed (removed), so every trial is in exactly one file at any time.  After each
+    command the output file is analysed: it must report exactly the pooled counts of all parts that went in."""
+    k, n_parts, first = case['k'], case['n_parts'], case['first']
+    res = {'evals': 0, 'nontrivial': 0, 'violations': [], 'samples': [], 'outcomes': [],
+           'extra': {'analyses': 0, 'violations_total': 0, 'layouts_with_violation': 0, 'raw_records_read': 0,
+                     'merge_commands': 0, 'merge_history_analyses': 0, 'merge_output_is_input': 0}}
+    V = res['violations']
+    a_types, b_types, c_types = trial_sets(k, 0)
+    files = _file_records(MERGE_PARTITION[n_parts], a_types, b_types, c_types)
+    ctx = _Ctx(k)
+    root = tempfile.mkdtemp(prefix='c15_', dir='/dev/shm' if os.path.isdir('/dev/shm') else None)
+    seen = set()
+    outcomes = set()
+    counter = [0]
+
+    def part_name(i):
+        return 'part%d%s' % (i, '.json.gz' if i % 2 else '.json')
+
+    def emit(key, detail):
+        res['extra']['violations_total'] += 1
+        if len(V) < 5 and not any(v['key'] == key for v in V):
+            V.append({'key': key, 'detail': detail})
+
+    def explore(d, state, hist, forced=()):
+        # forced: input selections prescribed for the first steps (all outputs are still enumerated)
+        ops = list(_merge_ops(state))
+        if len(hist) < len(forced):
+            ops = [(i, o) for i, o in ops if i == forced[len(hist)]]
+        for inputs, out in ops:
+            counter[0] += 1
+            d2 = os.path.join(root, 'h%d' % counter[0])
+            shutil.copytree(d, d2)
+            fresh = out is None
+            # fresh outputs alternate between the default compressed name and a plain .json name
+            out_name = out if not fresh else ('merged%d%s' % (len(hist), '.json' if len(inputs) % 2 else '.json.gz'))
+            cmd = ['merge-results'] + inputs + ['-o', out_name]
+            step = {'inputs': inputs, 'output': out_name, 'output_is_input': not fresh,
+                    'output_position': None if fresh else inputs.index(out)}
+            hist2 = hist + [step]
+            content = frozenset().union(*[state[f] for f in inputs])
+            pooled = {}
+            for i in sorted(content):
+                for lb, ts in files[i]:
+                    pooled.setdefault(lb, []).extend(ts)
+            labels = sorted(pooled)
+            expected = {lb: oracle_row([_type(t, k) for t in pooled[lb]], k) for lb in labels}
+            key0 = {'family': 'merge', 'k': k, 'n_parts': n_parts, 'step': len(hist2), 'n_inputs': len(inputs),
+                    'output_is_input': not fresh, 'output_position': step['output_position']}
+            where = {'history': ['panqec merge-results %s -o %s' % (' '.join(h['inputs']), h['output'])
+                                 for h in hist2],
+                     'part_files': {part_name(i): [[lb, ts] for lb, ts in files[i]] for i in range(n_parts)},
+                     'parts_in_output': sorted(content),
+                     'pooled_n_trials': {lb: len(pooled[lb]) for lb in labels}}
+            table = None
+            cwd = os.getcwd()
+            try:
+                os.chdir(d2)
+                with warnings.catch_warnings():
+                    warnings.simplefilter('ignore')
+                    try:
+                        r = ctx.CliRunner().invoke(ctx.cli, cmd)
+                        if r.exit_code != 0 or not os.path.isfile(out_name):
+                            if r.exception is not None and not isinstance(r.exception, SystemExit):
+                                raise r.exception
+                            raise RuntimeError('merge-results exit code %s: %s' % (r.exit_code, r.output[-200:]))
+                        for f in inputs:
+                            if f != out_name:
+                                os.remove(f)
+                        table, rows, n_raw = ctx.analyse([os.path.join(d2, out_name)])
+                    except _MissingColumns as exc:
+                        emit(dict(key0, kind='missing-column', column=exc.args[0][0]),
+                             dict(where, missing_columns=exc.args[0]))
+                        outcomes.add('merge|%d|missing' % k)
+                    except Exception as exc:
+                        if not _in_panqec(exc):
+                            raise
+                        emit(dict(key0, kind='raises', exc=type(exc).__name__),
+                             dict(where, message=str(exc)[:300], traceback=traceback.format_exc()[-1200:]))
+                        outcomes.add('merge|%d|raises|%s' % (k, type(exc).__name__))
+            finally:
+                os.chdir(cwd)
+            res['evals'] += 1
+            res['extra']['merge_commands'] += 1
+            res['extra']['merge_output_is_input'] += int(not fresh)
+            seen.add(repr([(h['inputs'], h['output']) for h in hist2]))
+            before = res['extra']['violations_total']
+            if table is not None:
+                res['extra']['analyses'] += 1
+                res['extra']['merge_history_analyses'] += 1
+                res['extra']['raw_records_read'] += n_raw
+                outcomes.add('merge|%d|%s|%d|%s' % (k, sorted(content), n_raw, _digest(table)))
+                if sorted(rows) != labels:
+                    emit(dict(key0, kind='rows', n_rows=len(rows), n_points=len(labels)),
+                         dict(where, rows_reported=[{'row': lb, 'n_trials': table[lb]['n_trials']} for lb in rows]))
+                else:
+                    for lb in labels:
+                        for col in ALL_COLS:
+                            got, want = table[lb][col], expected[lb][col]
+                            if not _close(got, want):
+                                emit(dict(key0, kind='value', column=col, point=lb),
+                                     dict(where, point=lb, reported=got, hand_pooled=want))
+                if len(res['samples']) < 2 and not fresh:
+                    res['samples'].append({'family': 'merge', 'k': k, 'history': where['history'],
+                                           'reported_n_trials': {lb: table[lb]['n_trials'] for lb in table},
+                                           'pooled_n_trials': where['pooled_n_trials']})
+            if res['extra']['violations_total'] > before or table is None:
+                res['extra']['layouts_with_violation'] += 1
+            state2 = {f: c for f, c in state.items() if f not in inputs}
+            state2[out_name] = content
+            if table is not None and len(state2) > 1:
+                explore(d2, state2, hist2, forced)
+            shutil.rmtree(d2, ignore_errors=True)
+
+    try:
+        d0 = os.path.join(root, 'start')
+        os.makedirs(d0)
+        for i in range(n_parts):
+            ctx.write(os.path.join(d0, part_name(i)), files[i], ulp=(i % 2 == 1))
+        forced = [[part_name(i) for i in sel] for sel in [first] + ([case['second']] if 'second' in case else [])]
+        explore(d0, {part_name(i): frozenset([i]) for i in range(n_parts)}, [], forced)
+    finally:
+        shutil.rmtree(root, ignore_errors=True)
+    res['nontrivial'] = len(seen)          # every history prefix pools >= 2 files through the real command
+    res['outcomes'] = sorted(outcomes)[:50]
+    return res
+
+
 def eval_case(case):
+    if case.get('family') == 'merge':
+        return _eval_merge(case)
     k = case['k']
     large = case.get('family') == 'large'
     res = {'evals': 0, 'nontrivial': 0, 'violations': [], 'samples': [], 'outcomes': [],
